@@ -1,5 +1,5 @@
 (* Extraction of the syntax tree engine (ExtrOcamlBasic only). *)
 Require Extraction.
 Require Import ExtrOcamlBasic.
-From Verif Require Import Bytes AstSchema Facts_Ast AstTreeM AstTreeSpec AstTreeInst Facts_AstOps ExprPrintParseM ExprPrintParseInst.
-Extraction "ast_model.ml" ast_clone ast_walk kind_by_name field_by_name ast_decl_of ast_field_of max_id ids erase ast_hyp ast_no_clone_exception c27_wf c27_print_string c27_roundtrip c27_parse.
+From Verif Require Import Bytes AstSchema Facts_Ast AstTreeM AstTreeSpec AstTreeInst Facts_AstOps ExprPrintParseM ExprPrintParseInst Facts_AstPrim ExprFullM ExprFullOk ExprFullInst.
+Extraction "ast_model.ml" ast_clone ast_walk kind_by_name field_by_name ast_decl_of ast_field_of max_id ids erase ast_hyp ast_no_clone_exception c27_wf c27_print_string c27_roundtrip c27_parse x_show x_pp x_relex x_pexpr x_parse_top x_roundtrip x_printable x_printable_type fuel_of.
